@@ -126,16 +126,9 @@ def check(ck):
                q.loc(fi, n))
     ck.floor("C03.1", 12)
     fdis = prog.func(SRV, DISP + "._dispatch")
-    fsd = prog.func(SRV, DISP + "._marshaled_single_dispatch")
-
-    def catches_base(fn, call_pred):
-        for t in ast.walk(fn.node):
-            if isinstance(t, ast.Try) and any(isinstance(c, ast.Call) and call_pred(c) for st_ in t.body for c in ast.walk(st_)):
-                if any(h.type is None or dump(h.type) == "BaseException" for h in t.handlers):
-                    return True
-        return False
-    inner = catches_base(fdis, lambda c: isinstance(c.func, ast.Name) and c.func.id == "func")
-    outer = catches_base(fsd, lambda c: call_name(c) in ("_dispatch", "dispatch_method"))
+    layers = common.base_exception_layers(prog)
+    inner = layers["_dispatch (around the method call)"]
+    outer = layers["_marshaled_single_dispatch (around the dispatch)"]
     ck.require(inner or outer, "C03.1", "%s: a failing callable is answered with the request id" % SRV,
                "a handler of _dispatch / _marshaled_single_dispatch catches every exception of the callable",
                "neither _dispatch nor _marshaled_single_dispatch catches a non-Exception BaseException raised by the callable (SystemExit, "
